@@ -72,3 +72,58 @@ def unroll(summary, event_or_ctxloops, terms):
     for asg, m in combos:
         out.append((asg, [subst(t, m) if t is not None else None for t in terms]))
     return out
+
+
+def eval_term(t):
+    """Python value of a term built from constants, list / tuple literals, append / extend on them, itertools.product, string
+    concatenation and comprehensions over such values.  Raises NotConstant otherwise."""
+    import itertools
+    t = strip(t)
+    h = head(t)
+    if h == "const":
+        return t[2]
+    if h in ("list", "tuple", "set"):
+        vals = [eval_term(x) for x in t[1]]
+        return vals if h == "list" else tuple(vals) if h == "tuple" else set(vals)
+    if h == "mut" and t[1] in ("append", "extend") and len(t[3]) == 1:
+        base = list(eval_term(t[2]))
+        v = eval_term(t[3][0])
+        if t[1] == "append":
+            base.append(v)
+        else:
+            base.extend(v)
+        return base
+    if h == "bin" and t[1] == "+":
+        return eval_term(t[2]) + eval_term(t[3])
+    if h == "call" and strip(t[1]) == ("glob", "itertools.product") and not t[3]:
+        return list(itertools.product(*[eval_term(a) for a in t[2]]))
+    if h == "call" and head(strip(t[1])) == "glob" and strip(t[1])[1] in ("builtins.list", "builtins.tuple", "builtins.sorted") and len(t[2]) == 1:
+        v = eval_term(t[2][0])
+        return {"builtins.list": list, "builtins.tuple": tuple, "builtins.sorted": sorted}[strip(t[1])[1]](v)
+    if h == "comp" and t[1] in ("list", "gen", "set") and len(t[3]) == 1 and not t[3][0][1]:
+        elem = t[3][0][0]
+        items = eval_term(elem[3])
+        out = []
+        for it in items:
+            m = {elem: _lift_value(it)}
+            out.append(eval_term(_proj(subst(t[2], m))))
+        return out
+    raise NotConstant(str(t)[:80])
+
+
+def _lift_value(v):
+    if isinstance(v, (tuple, list)):
+        return ("tuple", tuple(_lift_value(x) for x in v))
+    return const(v)
+
+
+def _proj(t):
+    """item / constant-subscript projections of literal tuples."""
+    if not isinstance(t, tuple):
+        return t
+    t = tuple(_proj(x) if isinstance(x, tuple) else x for x in t)
+    if head(t) == "item" and head(t[1]) == "tuple" and isinstance(t[2], int):
+        return t[1][1][t[2]]
+    if head(t) == "sub" and head(t[1]) == "tuple" and is_const(t[2]) and isinstance(t[2][2], int):
+        return t[1][1][t[2][2]]
+    return t
